@@ -363,6 +363,21 @@ impl<'a> TyVisitorRef for V<'a> {
                 st.class(&format!("iterator length {n}"));
                 nontrivial = rich && n >= 2;
             }
+            12 if case.n % 2 == 0 => {
+                // the in-place constructors of Zero / One leave a CONSTANT behind
+                let mut z = a.clone();
+                Zero::set_zero(&mut z);
+                expect_same!(dims, lay, T::zero(), z, 0.0, "set_zero", "x.set_zero()", ctx());
+                let mut o = b.clone();
+                One::set_one(&mut o);
+                expect_same!(dims, lay, T::one(), o, 0.0, "set_one", "x.set_one()", ctx());
+                // ... and the accumulator idiom built on them
+                let mut acc = a.clone();
+                Zero::set_zero(&mut acc);
+                acc += b.clone();
+                expect_same!(dims, lay, T::zero() + b.clone(), acc, 0.0, "set_zero", "x.set_zero(); x += b", ctx());
+                nontrivial = nonzero_parts(&lay, &fa, 1) >= 1;
+            }
             12 => {
                 let base = a.clone() * b.clone() + c.clone();
                 let m = a.mul_add(b.clone(), c.clone());
@@ -510,7 +525,7 @@ impl Property for C08 {
         }
     }
     fn rule() -> String {
-        "generated: (type from the 58-type registry, one of 16 form families, operands with arbitrary parts and presence patterns, scalar incl. 0 and +-1, primitive integer incl. extreme i64, iterator length 0..9). Families: a op b vs &a op &b, a op &b, &a op b, a op= b for + - * / (bit-for-bit, and the base form against the reference algebra); -a vs -&a vs 0-a; a op s and a op= s vs a op D::from(s) (additive exact, multiplicative to 16 u per part; one multiplicative-scalar case in three uses a wide-magnitude scalar +-10^e, |e| <= 290 (f32: 30), where every part of the result must be the correctly rounded part*s resp. part/s and the lifted form is compared while 1/s^(order+1) is representable); inv vs recip; Sum / Product over owned and borrowed iterators (incl. empty; slices, filter, flat_map, from_fn, take_while, chain - i.e. also iterators whose size_hint promises nothing) vs folds; default mul_add vs a*b+c; From<F> and the 14 FromPrimitive constructors vs the lifted float (constant with zero parts, None exactly when the float conversion is None); Zero, One and the 16 FloatConst constants have the float constant's bits and zero parts; from_inner lifts an arbitrary value of the inner number type (nested types: a dual number with its own parts) to a constant whose real block is that value and whose other parts are zero. Non-trivial: operands with >= 2 non-zero derivative parts, scalar not in {0,+-1}, iterator length >= 2.".into()
+        "generated: (type from the 61-type registry, one of 16 form families, operands with arbitrary parts and presence patterns, scalar incl. 0 and +-1, primitive integer incl. extreme i64, iterator length 0..9). Families: a op b vs &a op &b, a op &b, &a op b, a op= b for + - * / (bit-for-bit, and the base form against the reference algebra); -a vs -&a vs 0-a; a op s and a op= s vs a op D::from(s) (additive exact, multiplicative to 16 u per part; one multiplicative-scalar case in three uses a wide-magnitude scalar +-10^e, |e| <= 290 (f32: 30), where every part of the result must be the correctly rounded part*s resp. part/s and the lifted form is compared while 1/s^(order+1) is representable); inv vs recip; Sum / Product over owned and borrowed iterators (incl. empty; slices, filter, flat_map, from_fn, take_while, chain - i.e. also iterators whose size_hint promises nothing) vs folds; default mul_add vs a*b+c; set_zero / set_one (provided methods of Zero / One) leave the constants zero() / one(); From<F> and the 14 FromPrimitive constructors vs the lifted float (constant with zero parts, None exactly when the float conversion is None); Zero, One and the 16 FloatConst constants have the float constant's bits and zero parts; from_inner lifts an arbitrary value of the inner number type (nested types: a dual number with its own parts) to a constant whose real block is that value and whose other parts are zero. Non-trivial: operands with >= 2 non-zero derivative parts, scalar not in {0,+-1}, iterator length >= 2.".into()
     }
     fn assumptions() -> Vec<String> {
         vec!["numerical equality (== on every part, NaN = NaN); presence patterns of the results are not compared (that is C07)".into()]
